@@ -200,14 +200,16 @@ func checkChangeConflictExclusiveKinds(st *state.State, newExclusiveChangeKind, 
 			}
 			if downgrading, err := changeIsSnapdDowngrade(st, chg); err != nil {
 				return err
-			} else if !downgrading {
-				continue
+			} else if downgrading {
+				return &ChangeConflictError{
+					Message:    "snapd downgrade in progress, no other changes allowed until this is done",
+					ChangeKind: chg.Kind(),
+					ChangeID:   chg.ID(),
+				}
 			}
-			return &ChangeConflictError{
-				Message:    "snapd downgrade in progress, no other changes allowed until this is done",
-				ChangeKind: chg.Kind(),
-				ChangeID:   chg.ID(),
-			}
+			// an ordinary refresh or revert is like any other change
+			// in progress
+			fallthrough
 		default:
 			if newExclusiveChangeKind != "" {
 				// we want to run a new exclusive change, but other
